@@ -42,7 +42,12 @@ def s_case(gran):
         "spec_delay": st.sampled_from([0.0, 0.05]),
         "idempotent": st.sampled_from([True, True, True, False]),
         "timeout": st.sampled_from([None, None, 0.3, 0.3, 1.0]),
-        "decisions": st.lists(dec, max_size=4),
+        # either free decisions, or a run of retries (the chain then ends with the policy's RETHROW / IGNORE)
+        "decisions": st.one_of(st.lists(dec, max_size=4),
+                               st.tuples(st.lists(st.tuples(st.sampled_from(["retry", "retry", "next_host"]),
+                                                            st.sampled_from([None, "ONE"])), min_size=1, max_size=3),
+                                         st.lists(st.tuples(st.sampled_from(["rethrow", "ignore"]), st.just(None)),
+                                                  max_size=1)).map(lambda t: t[0] + t[1])),
         "events": st.builds(lambda warm, evs: warm + evs,
                             st.sampled_from([[], [("advance", 0.06)], [("advance", 0.06), ("advance", 0.06)],
                                              [("advance", 0.06), ("advance", 0.06), ("advance", 0.06)],
@@ -50,7 +55,12 @@ def s_case(gran):
                                              [("answer", 0, "rows_more"), ("next_page",), ("answer", 0, "invalid"),
                                               ("next_page",), ("answer", 0, "rows")],
                                              [("answer", 0, "rows_more"), ("next_page",), ("answer", 0, "unauthorized"),
-                                              ("next_page",)]]),
+                                              ("next_page",)],
+                                             # a chain of retryable errors: every attempt fails
+                                             [("answer", 0, "unavailable"), ("answer", 0, "overloaded"),
+                                              ("answer", 0, "read_timeout")],
+                                             [("answer", 0, "write_timeout"), ("answer", 0, "bootstrapping"),
+                                              ("answer", 0, "server_error"), ("answer", 0, "unavailable")]]),
                             st.lists(ev, min_size=1, max_size=12)),
         "tape": st.lists(st.integers(0, 3), max_size=30 if gran == "locks" else 8),
         "gran": st.just(gran),
